@@ -14,7 +14,7 @@ rsync -a --exclude .target --exclude .git /verif/ $M/verif/
 sed -i "s|/repo/|$M/repo/|g" $M/verif/harness/vcheck/Cargo.toml $M/verif/harness/vsim/Cargo.toml
 sed -i "s|target-dir = \"/verif/.target\"|target-dir = \"$M/verif/.target\"|" $M/verif/harness/.cargo/config.toml
 cd $M/verif && ./check --build || { echo "build failed"; exit 2; }
-out=/verif/seeded/MATRIX.tsv
+out=${MATRIX_OUT:-/verif/seeded/MATRIX.tsv}
 # ONLY=<regex>: run only the patches whose path matches and replace their lines in the table
 if [ -n "$ONLY" ] && [ -f $out ]; then
   grep -Ev -e "$ONLY" $out > $out.tmp; mv $out.tmp $out
@@ -56,8 +56,9 @@ for p in /verif/mutants/*.patch; do
   [ -n "$c" ] && run $p $c
 done
 # behaviour-preserving refactors: every check must stay silent (exit 0)
+# (NEUTRAL_CHECKS="C01 C05" restricts this section to some checks; with ONLY the table keeps the other lines)
 for p in $(for d in /verif/neutral/N*/; do if [ -f $d/patch_rebased_on_F15.diff ]; then echo $d/patch_rebased_on_F15.diff; else echo $d/patch.diff; fi; done) /verif/neutral/B-C18c/patch.diff /verif/neutral/B-C12i/patch.diff /verif/neutral/B-C06i/patch.diff /verif/seeded/C01-a/patch_rebased_on_F2.diff /verif/seeded/C07-c/patch.diff /verif/seeded/C19-b/patch.diff /verif/seeded/C02-e/patch.diff; do
-  run $p C01 C02 C03 C04 C05 C06 C07 C08 C09 C10 C11 C12 C13 C14 C15 C16 C17 C18 C19
+  run $p ${NEUTRAL_CHECKS:-C01 C02 C03 C04 C05 C06 C07 C08 C09 C10 C11 C12 C13 C14 C15 C16 C17 C18 C19}
 done
 git -C /repo worktree remove --force $M/repo; rm -rf $M/verif/.target
 echo "matrix written to $out"
